@@ -27,10 +27,15 @@ BIG_LENGTHS = BIG_LENGTHS_QUICK
 MEMBER_BIG_QUICK = [600, 16384]
 MEMBER_BIG_THOROUGH = [511, 512, 513, 600, 16383, 16384, 65536]
 MEMBER_BIG = MEMBER_BIG_QUICK
+# list lengths above 300 (only lists of BOOLEAN / INTEGER / NULL / ENUMERATED elements get them)
+OF_BIG_QUICK = [16384]
+OF_BIG_THOROUGH = list(BIG_LENGTHS_THOROUGH)
+OF_BIG = OF_BIG_QUICK
 
 
 def set_tier(tier):
-    global BIG_LENGTHS, MEMBER_BIG
+    global BIG_LENGTHS, MEMBER_BIG, OF_BIG
+    OF_BIG = OF_BIG_THOROUGH if tier == 'thorough' else OF_BIG_QUICK
     BIG_LENGTHS = BIG_LENGTHS_THOROUGH if tier == 'thorough' else BIG_LENGTHS_QUICK
     MEMBER_BIG = MEMBER_BIG_THOROUGH if tier == 'thorough' else MEMBER_BIG_QUICK
 
@@ -437,7 +442,7 @@ def dom(t, env, big=True, k=2, depth=2, cap=48, _stack=()):
         d = list(d)
         for n in sizes:
             if n > 300:
-                if _cheap(t.elem, env):
+                if _cheap(t.elem, env) and (n in OF_BIG or n not in BIG_LENGTHS_THOROUGH):
                     out.append([d[i % len(d)] for i in range(n)])
                 continue
             if n == 0:
